@@ -2184,7 +2184,9 @@ def r8_14(rep):
         if not any(v.endswith("TypeKind::TemplateInstantiation") for v in _pv(a["pat"])):
             continue
         names = [(x.get("name") or (x.get("callee") or "").split("::")[-1]) for x in b.walk(a["body"]) if x["k"] in ("MCall", "Call")]
-        asks = "template_arguments" in names and ("impl_debug" in names or "allowlisted_items" in names)
+        none_tested = "is_none" in names or any(x["k"] == "Path" and str(x.get("def", "")).endswith("is_none") for x in b.walk(a["body"])) or \
+            any(x["k"] == "Try" for x in b.walk(a["body"])) or "allowlisted_items" in names
+        asks = "template_arguments" in names and ("impl_debug" in names or "allowlisted_items" in names) and none_tested
         rep.check(asks, "debug-instantiation-asks-arguments", "the instantiation arm asks whether every template argument can be formatted" if asks else
                   "the instantiation arm formats `self.<field>` without looking at the template arguments: `Tmpl<Blocked>` needs `Blocked: Debug`",
                   b.loc(a["body"]))
